@@ -38,7 +38,7 @@ BUDGET = {
 REQUIRED_PROBES = ["get", "post", "patch_or_put", "delete", "body_star", "body_field", "no_body", "additional_binding_used",
                    "nested_path_variable", "two_path_variables", "required_default_in_query", "numeric_enums", "enum_names",
                    "http_fault_retried", "http_fault_surfaced", "streamed_reply_short_reads", "repeat_call_same_rpc",
-                   "unbound_method_refused", "no_binding_matches", "reply_decoded", "query_nested_or_repeated", "threaded_rest_callers"]
+                   "unbound_method_refused", "no_binding_matches", "reply_decoded", "query_nested_or_repeated", "threaded_rest_callers", "rest_connection_error"]
 ASSUMPTIONS = ["present-but-empty singular message fields are not generated (HTTP query strings cannot express them)",
                "path-variable values are drawn without '%', '?', '#' (URL quoting of those is requests'/api-core's concern)",
                "fields that http.proto forbids in the query (repeated messages, maps) are moved into the body by the "
@@ -398,6 +398,11 @@ def gen_scenarios(spec, rng, n):
                 if op.get("kind") == "unary" and rng.random() < 0.35:
                     op["server"].insert(0, {"code": "UNAUTHENTICATED"})
                     op["token_expired_first"] = True
+        for op in ops:
+            if op.get("kind") == "unary" and not op.get("token_expired_first") and not op.get("surfaces") and rng.random() < 0.08:
+                # fault: the pooled connection is dropped by the peer on the first send (no HTTP status at all)
+                op["server"] = [{"conn_error": True}] + [o for o in op["server"] if not o.get("code")]
+                op["conn_error_first"] = True
         out.append(sc)
     return out
 
@@ -639,6 +644,11 @@ def judge_op(spec, codec, scenario, op, evs, probes, numeric):
         elif tokens is None and sig != first_sig:
             return V("retry_not_identical", "a retried attempt differs from the first attempt")
     # ---- outcome / reply
+    if op.get("conn_error_first"):
+        # the connection broke on the first send: the error may surface (it does on the pinned tree) or the client may
+        # re-send; every request that WAS sent has been judged above
+        _bump(probes, "rest_connection_error")
+        return []
     script = op.get("server") or []
     last_sv = servers[attempts[-1]["n"]]
     if op["kind"] == "unary":
